@@ -30,7 +30,7 @@ Proof. intros H (x & Hx & Hc) Hp. eapply kloop_inconclusive; eauto. Qed.
 
 (* MinPathCover *)
 Theorem mpc_search_sound ex lb ne sts k :
-  res (mpc_solve ex lb ne sts) = Solved k ->
+  so_res (mpc_solve ex lb ne sts) = Solved k ->
   lb <= k < upper ex ne /\
   map status_of (firstn (used (mpc_solve ex lb ne sts)) sts) = repeat Infeasible (k - lb) ++ [Optimal].
 Proof.
@@ -39,7 +39,7 @@ Proof.
 Qed.
 
 Theorem mpc_search_inconclusive ex lb ne sts p :
-  inconclusive_at sts p -> p < used (mpc_solve ex lb ne sts) -> res (mpc_solve ex lb ne sts) = NotSolved.
+  inconclusive_at sts p -> p < used (mpc_solve ex lb ne sts) -> so_res (mpc_solve ex lb ne sts) = NotSolved.
 Proof.
   unfold mpc_solve. destruct (kloop never never (krange lb (upper ex ne)) sts 0) as [r m] eqn:E. simpl.
   intros Hi Hp. eapply plain_inconclusive; eauto.
@@ -47,7 +47,7 @@ Qed.
 
 Theorem mpc_search_inconclusive_first ex lb ne pre x post :
   Forall (fun y => status_of y = Infeasible) pre -> conclusive (status_of x) = false ->
-  res (mpc_solve ex lb ne (pre ++ x :: post)) = NotSolved.
+  so_res (mpc_solve ex lb ne (pre ++ x :: post)) = NotSolved.
 Proof.
   intros Hp Hx. unfold mpc_solve.
   pose proof (kloop_first_inconclusive (krange lb (upper ex ne)) pre x post 0 Hp Hx) as H.
@@ -56,24 +56,24 @@ Qed.
 
 (* MinPathCoverCycles *)
 Theorem mpcc_search_sound ex lb ne sts k :
-  res (mpcc_solve ex lb ne sts) = Solved k ->
+  so_res (mpcc_solve ex lb ne sts) = Solved k ->
   lb <= k < upper ex ne /\
   map status_of (firstn (used (mpcc_solve ex lb ne sts)) sts) = repeat Infeasible (k - lb) ++ [Optimal].
 Proof. exact (mpc_search_sound ex lb ne sts k). Qed.
 
 Theorem mpcc_search_inconclusive ex lb ne sts p :
-  inconclusive_at sts p -> p < used (mpcc_solve ex lb ne sts) -> res (mpcc_solve ex lb ne sts) = NotSolved.
+  inconclusive_at sts p -> p < used (mpcc_solve ex lb ne sts) -> so_res (mpcc_solve ex lb ne sts) = NotSolved.
 Proof. exact (mpc_search_inconclusive ex lb ne sts p). Qed.
 
 Theorem mpcc_search_inconclusive_first ex lb ne pre x post :
   Forall (fun y => status_of y = Infeasible) pre -> conclusive (status_of x) = false ->
-  res (mpcc_solve ex lb ne (pre ++ x :: post)) = NotSolved.
+  so_res (mpcc_solve ex lb ne (pre ++ x :: post)) = NotSolved.
 Proof. exact (mpc_search_inconclusive_first ex lb ne pre x post). Qed.
 
 (* ------------------------------------------------------------------ MinGenSet *)
 (* corrected model (switch off) *)
 Theorem mgs_search_sound lb n sts k :
-  res (mgs_solve false lb n sts) = Solved k ->
+  so_res (mgs_solve false lb n sts) = Solved k ->
   lb <= k < Nat.max (lb + 1) n /\
   map status_of (firstn (used (mgs_solve false lb n sts)) sts) = repeat Infeasible (k - lb) ++ [Optimal].
 Proof.
@@ -83,7 +83,7 @@ Proof.
 Qed.
 
 Theorem mgs_search_inconclusive lb n sts p :
-  inconclusive_at sts p -> p < used (mgs_solve false lb n sts) -> res (mgs_solve false lb n sts) = NotSolved.
+  inconclusive_at sts p -> p < used (mgs_solve false lb n sts) -> so_res (mgs_solve false lb n sts) = NotSolved.
 Proof.
   unfold mgs_solve, mgs_range. rewrite mgs_loop_false.
   destruct (kloop never never (krange lb (Nat.max (lb + 1) n)) sts 0) as [r m] eqn:E. simpl.
@@ -92,7 +92,7 @@ Qed.
 
 Theorem mgs_search_inconclusive_first lb n pre x post :
   Forall (fun y => status_of y = Infeasible) pre -> conclusive (status_of x) = false ->
-  res (mgs_solve false lb n (pre ++ x :: post)) = NotSolved.
+  so_res (mgs_solve false lb n (pre ++ x :: post)) = NotSolved.
 Proof.
   intros Hp Hx. unfold mgs_solve, mgs_range. rewrite mgs_loop_false.
   pose proof (kloop_first_inconclusive (krange lb (Nat.max (lb + 1) n)) pre x post 0 Hp Hx) as H.
@@ -101,7 +101,7 @@ Qed.
 
 (* the code as it stands (switch on): what remains true ... *)
 Theorem mgs_faithful_final_optimal b lb n sts k :
-  res (mgs_solve b lb n sts) = Solved k ->
+  so_res (mgs_solve b lb n sts) = Solved k ->
   lb <= k < Nat.max (lb + 1) n /\ 0 < used (mgs_solve b lb n sts) /\
   exists x, nth_error sts (used (mgs_solve b lb n sts) - 1) = Some x /\ status_of x = Optimal.
 Proof.
@@ -115,7 +115,7 @@ Qed.
 Theorem mgs_refuted :
   exists lb n sts p k,
     inconclusive_at sts p /\ p < used (mgs_solve true lb n sts) /\
-    res (mgs_solve true lb n sts) = Solved k /\ lb + p < k.
+    so_res (mgs_solve true lb n sts) = Solved k /\ lb + p < k.
 Proof.
   exists 1, 3, [mkraw TimeLimit false; mkraw Optimal false], 0, 2.
   split; [exists (mkraw TimeLimit false); split; reflexivity|]. vm_compute. repeat split; lia.
@@ -125,7 +125,7 @@ Qed.
 Theorem mgs_refuted_custom_timeout :
   exists lb n sts p k,
     (exists x, nth_error sts p = Some x /\ custom_timeout x = true) /\
-    p < used (mgs_solve true lb n sts) /\ res (mgs_solve true lb n sts) = Solved k /\ lb + p < k.
+    p < used (mgs_solve true lb n sts) /\ so_res (mgs_solve true lb n sts) = Solved k /\ lb + p < k.
 Proof.
   exists 1, 4, [mkraw Infeasible false; mkraw Optimal true; mkraw Optimal false], 1, 3.
   split; [exists (mkraw Optimal true); split; reflexivity|]. vm_compute. repeat split; lia.
@@ -150,7 +150,7 @@ Qed.
 Theorem fd_main_inconclusive sk ex P sts p :
   inconclusive_at sts p ->
   aux (fd_solve sk ex P sts) <= p < used (fd_solve sk ex P sts) ->
-  res (fd_solve sk ex P sts) = NotSolved.
+  so_res (fd_solve sk ex P sts) = NotSolved.
 Proof.
   intros (x & Hx & Hc). unfold fd_solve.
   destruct (lb_phase sk ex (use_mgs P) (lb0 P) (nweights P) sts) as [lb n1|n|n]; simpl; try lia.
@@ -169,7 +169,7 @@ Qed.
 (* Solved k: all k' in [lbk, k) were tried and proven infeasible, k was proven optimal or needed
    no solver (greedy / guessed-weights model proven optimal with exactly k paths), clock not run out *)
 Theorem fd_sound_main sk ex P sts k :
-  res (fd_solve sk ex P sts) = Solved k ->
+  so_res (fd_solve sk ex P sts) = Solved k ->
   let o := fd_solve sk ex P sts in
   lbk o <= k < upper (upper_excl P) (nedges P) /\ aux o <= used o /\ over P (used o) = false /\
   exists tail,
@@ -233,7 +233,7 @@ Proof.
 Qed.
 
 (* without the exit switch the interpreter is never left *)
-Theorem fd_never_exits sk P sts : res (fd_solve sk false P sts) <> Exited.
+Theorem fd_never_exits sk P sts : so_res (fd_solve sk false P sts) <> Exited.
 Proof.
   unfold fd_solve.
   assert (Hk : forall pre ov ks s n, fst (kloop pre ov ks s n) <> Exited).
@@ -260,11 +260,11 @@ Definition mfdc_view (P : fd_params) : fd_params :=
 
 Theorem mfd_main_inconclusive sk ex P sts p :
   inconclusive_at sts p -> aux (mfd_solve sk ex P sts) <= p < used (mfd_solve sk ex P sts) ->
-  res (mfd_solve sk ex P sts) = NotSolved.
+  so_res (mfd_solve sk ex P sts) = NotSolved.
 Proof. exact (fd_main_inconclusive sk ex (mfd_view P) sts p). Qed.
 
 Theorem mfd_search_sound ex P sts k :
-  res (mfd_solve false ex P sts) = Solved k ->
+  so_res (mfd_solve false ex P sts) = Solved k ->
   let o := mfd_solve false ex P sts in
   (* the lower bound is lb0 or a MinGenSet optimum certified by its own status sequence *)
   (lbk o = lb0 P \/
@@ -288,7 +288,7 @@ Qed.
 Theorem mfd_refuted_skipped_lowerbound :
   exists P sts p k,
     inconclusive_at sts p /\ p < aux (mfd_solve true true P sts) /\
-    res (mfd_solve true true P sts) = Solved k /\ lb0 P + p < lbk (mfd_solve true true P sts).
+    so_res (mfd_solve true true P sts) = Solved k /\ lb0 P + p < lbk (mfd_solve true true P sts).
 Proof.
   exists (mkfd 1 true 4 true 3 false 0 never never),
          [mkraw TimeLimit false; mkraw Optimal false; mkraw Optimal false], 0, 2.
@@ -297,23 +297,23 @@ Qed.
 
 (* exit(0): with the MinGenSet model unsolved the process is left (with either MinGenSet variant) *)
 Theorem mfd_refuted_exit : forall sk,
-  exists P sts p, inconclusive_at sts p /\ res (mfd_solve sk true P sts) = Exited.
+  exists P sts p, inconclusive_at sts p /\ so_res (mfd_solve sk true P sts) = Exited.
 Proof.
   intros sk. exists (mkfd 1 true 4 true 1 false 0 never never), [mkraw TimeLimit false], 0.
   split; [exists (mkraw TimeLimit false); split; reflexivity|]. destruct sk; reflexivity.
 Qed.
 
-Theorem mfd_never_exits sk P sts : res (mfd_solve sk false P sts) <> Exited.
+Theorem mfd_never_exits sk P sts : so_res (mfd_solve sk false P sts) <> Exited.
 Proof. exact (fd_never_exits sk (mfd_view P) sts). Qed.
 
 (* --- MinFlowDecompCycles *)
 Theorem mfdc_main_inconclusive sk P sts p :
   inconclusive_at sts p -> aux (mfdc_solve sk P sts) <= p < used (mfdc_solve sk P sts) ->
-  res (mfdc_solve sk P sts) = NotSolved.
+  so_res (mfdc_solve sk P sts) = NotSolved.
 Proof. exact (fd_main_inconclusive sk false (mfdc_view P) sts p). Qed.
 
 Theorem mfdc_search_sound P sts k :
-  res (mfdc_solve false P sts) = Solved k ->
+  so_res (mfdc_solve false P sts) = Solved k ->
   let o := mfdc_solve false P sts in
   (lbk o = lb0 P \/
    (use_mgs P = true /\ exists kg m, lbk o = Nat.max (lb0 P) kg /\ lb0 P <= kg /\ m <= aux o /\
@@ -335,14 +335,14 @@ Qed.
 Theorem mfdc_refuted_skipped_lowerbound :
   exists P sts p k,
     inconclusive_at sts p /\ p < aux (mfdc_solve true P sts) /\
-    res (mfdc_solve true P sts) = Solved k /\ lb0 P + p < lbk (mfdc_solve true P sts).
+    so_res (mfdc_solve true P sts) = Solved k /\ lb0 P + p < lbk (mfdc_solve true P sts).
 Proof.
   exists (mkfd 1 true 4 true 3 false 0 never never),
          [mkraw TimeLimit false; mkraw Optimal false; mkraw Optimal false], 0, 2.
   split; [exists (mkraw TimeLimit false); split; reflexivity|]. vm_compute. repeat split; lia.
 Qed.
 
-Theorem mfdc_never_exits sk P sts : res (mfdc_solve sk P sts) <> Exited.
+Theorem mfdc_never_exits sk P sts : so_res (mfdc_solve sk P sts) <> Exited.
 Proof. exact (fd_never_exits sk (mfdc_view P) sts). Qed.
 
 (* ------------------------------------------------------------------ NumPathsOptimization *)
@@ -378,7 +378,7 @@ Qed.
 (* the returned model is the one for k, k is in range, and it was itself solved: by the last
    solver call, which ended optimal, or by its constructor *)
 Theorem npo_sound P sts k :
-  res (npo_solve P sts) = Solved k ->
+  so_res (npo_solve P sts) = Solved k ->
   kstart P <= k <= kmax P /\
   (npo_ext P k = true \/
    (0 < used (npo_solve P sts) /\
@@ -397,7 +397,7 @@ Theorem search_min (feasible : nat -> bool) lb ub kopt sts :
   (forall i, i < ub - lb -> exists x, nth_error sts i = Some x /\
              status_of x = if feasible (lb + i) then Optimal else Infeasible) ->
   feasible kopt = true -> (forall k, k < kopt -> feasible k = false) -> lb <= kopt < ub ->
-  res (mpc_solve true lb ub sts) = Solved kopt.
+  so_res (mpc_solve true lb ub sts) = Solved kopt.
 Proof.
   intros Ho Hf Hmin Hb. unfold mpc_solve, krange, upper.
   assert (G : forall len l s n, l + len = ub -> l <= kopt ->
